@@ -245,5 +245,17 @@ theorem remove_eq (key : α → κ) (P : Nat) (m : ASet α) (hle : m.len ≤ m.v
   simp only [take_eq key P m hle]
   cases ASet.take key m (key x) <;> rfl
 
+/-- `Deref`: the slice view is the first `len` slots — it never panics (since the repair c509816 `len()` cannot exceed
+    the slot count), and on a set whose prefix does not exceed the slot count it is the model's `view`. -/
+theorem deref_eq (key : α → κ) (P : Nat) (m : ASet α) :
+    deref key P m = some (m.vals.take (min m.len m.vals.length)) ∧
+    (m.len ≤ m.vals.length → deref key P m = some m.view) := by
+  have h1 : deref key P m = some (m.vals.take (min m.len m.vals.length)) := by
+    have hle : min m.len m.vals.length ≤ m.vals.length := Nat.min_le_right _ _
+    simp only [deref, len, Id.run, pure, hle, not_true_eq_false, if_false]
+  refine ⟨h1, fun hle => ?_⟩
+  rw [h1, Nat.min_eq_left hle]
+  rfl
+
 end GenA
 end Stevia
